@@ -413,7 +413,7 @@ def r4(R, repo):
   st = [n for n in cc.nodes if isinstance(n.stmt, ast.Assign) and astu.src(n.stmt.targets[0]) == 'cache[key]']
   hit = [n for n in cc.nodes if isinstance(n.stmt, ast.Return) and astu.src(n.stmt.value) == 'cache[key]']
   R.check(len(st) == 1 and len(hit) == 1, key_of(cf, 'clone stored in and served from the cache'), cf, 'clone_fn must store the clone under the submodule id and return cached clones')
-  ctor = [n for n in c.nodes if isinstance(n.stmt, ast.Assign) and astu.src(n.stmt.value) == 'self.__class__(**attrs)']
+  ctor = [n for n in c.nodes if isinstance(n.stmt, (ast.Assign, ast.Return)) and n.stmt.value is not None and astu.src(n.stmt.value) == 'self.__class__(**attrs)']
   R.check(len(ctor) == 1 and all(c.dominated(ctor[0], [t]) for t in tests), key_of(cl, 'new instance built from the (cloned) attrs'), cl, 'clone must construct a new instance from attrs')
 
 
